@@ -20,7 +20,6 @@ import (
 	"github.com/xelaj/mtproto"
 	"github.com/xelaj/mtproto/internal/encoding/tl"
 	"github.com/xelaj/mtproto/internal/mtproto/objects"
-	"github.com/xelaj/mtproto/internal/utils"
 	"github.com/xelaj/mtproto/verifharness/csched"
 	"github.com/xelaj/mtproto/verifharness/refserver"
 )
@@ -34,13 +33,16 @@ type callSpec struct {
 }
 
 type callState struct {
-	spec    callSpec
-	k       int
-	msgID   int64 // latest id seen at a yield point of this call
-	frame   int   // index of the request frame in the server log (-1 until written)
-	done    bool
-	got     string
-	answers int // how many answers the server has addressed to it
+	t         int // caller index
+	spec      callSpec
+	k         int
+	msgID     int64 // latest id seen at a yield point of this call
+	frame     int   // index of the request frame in the server log (-1 until written)
+	done      bool
+	got       string
+	answers   int    // how many answers the server has addressed to it
+	delivered bool   // one of them can be handed over
+	exp       string // the projection of the first such answer
 }
 
 type callerState struct {
@@ -87,6 +89,10 @@ type run struct {
 	broken   bool            // a second sender got past "prelock" while another one was between "idgen" and its return
 	nprobes  int
 	nblocked int
+	clockV   [][2]string // findings of the per-send clock oracle (key, text)
+	lowWords []uint32    // low 32 bits of the ids that came from the clock
+	seq0     int64       // seq_no the session was started with (0 = untouched)
+	relAt    map[string]int64
 }
 
 type traceWriter struct{ f *os.File }
@@ -167,6 +173,7 @@ func (r *run) start(idx, ncallers int) {
 		trouble("receive loop first parked at %q", ar.Point)
 	}
 	r.blocked = map[string]bool{}
+	r.relAt = map[string]int64{}
 	for t := 0; t < ncallers; t++ {
 		c := &callerState{name: "c" + strconv.Itoa(t), cmd: make(chan callSpec)}
 		r.callers = append(r.callers, c)
@@ -180,7 +187,7 @@ func (r *run) callerLoop(c *callerState, ready chan struct{}) {
 	r.sc.Register(c.name)
 	close(ready)
 	for sp := range c.cmd {
-		req := &objects.PingParams{PingID: sp.token}
+		req := request(sp)
 		var v interface{}
 		var err error
 		if sp.kind == "ping" {
@@ -197,9 +204,12 @@ func (r *run) callerLoop(c *callerState, ready chan struct{}) {
 		}
 		if sp.hinted {
 			var ht reflect.Type
-			if sp.kind == "vecobj" {
+			switch {
+			case sp.kind == "vecobj":
 				ht = reflect.TypeOf([]*objects.FutureSalt{})
-			} else {
+			case wide(sp):
+				ht = reflect.TypeOf([]int64{})
+			default:
 				ht = reflect.TypeOf([]int32{})
 			}
 			v, err = r.cl.MakeRequestWithHintToDecoder(req, ht)
@@ -210,17 +220,85 @@ func (r *run) callerLoop(c *callerState, ready chan struct{}) {
 	}
 }
 
-// showResult projects what MakeRequest returned: kind and payload token, never texts.
+// ---- result values -------------------------------------------------------------------------
+// A result is fully determined by (kind, token p); what identifies the caller sits in a LATE place:
+//   obj     p even: pong{msg_id 77, ping_id p}; p odd: msgs_detailed_info{71, 72, 73, status p}; ping: always pong
+//   bool    p & 1
+//   vec*    length class p mod 5 -> 1, 2, 17, 0, 1500 elements (1500 ints = 6 kB: gzip bodies above the
+//           4096-byte buffer of popMessageAsBytes); elements 7000+i (objects: 7000+i, 8000+i, 9000+i), the LAST one carries p
+//   err     rpc_error{400 + p mod 100, "VERIF_<p>"}
+// showResult prints kind:token only if EVERY element / field it got back equals what that token stands for.
+
+var vecLens = []int{1, 2, 17, 0, 1500}
+
+func vecLen(p int64) int { return vecLens[((p%5)+5)%5] }
+
+func bareVec32(p int64) []int32 {
+	v := make([]int32, vecLen(p))
+	for i := range v {
+		v[i] = int32(7000 + i)
+	}
+	if len(v) > 0 {
+		v[len(v)-1] = int32(p)
+	}
+	return v
+}
+
+func bareVec64(p int64) []int64 {
+	v := make([]int64, vecLen(p))
+	for i := range v {
+		v[i] = int64(7000+i) << 33 // needs more than 32 bits
+	}
+	if len(v) > 0 {
+		v[len(v)-1] = p
+	}
+	return v
+}
+
+func objVec(p int64) []*objects.FutureSalt {
+	v := make([]*objects.FutureSalt, vecLen(p))
+	for i := range v {
+		v[i] = &objects.FutureSalt{ValidSince: int32(7000 + i), ValidUntil: int32(8000 + i), Salt: int64(9000 + i)}
+	}
+	if len(v) > 0 {
+		v[len(v)-1].Salt = p
+	}
+	return v
+}
+
+func objValue(p int64, pong bool) tl.Object {
+	if pong || p%2 == 0 {
+		return &objects.Pong{MsgID: 77, PingID: p}
+	}
+	return &objects.MsgsDetailedInfo{MsgID: 71, AnswerMsgID: 72, Bytes: 73, Status: int32(p)}
+}
+
+func tok(p int64) string { return strconv.FormatInt(p, 10) }
+
+// showResult projects what MakeRequest returned.
 func showResult(v interface{}, err error) string {
 	if err != nil {
 		if e, ok := err.(*mtproto.ErrResponseCode); ok {
-			return "err:" + strings.TrimPrefix(e.Message, "VERIF_")
+			p, perr := strconv.ParseInt(strings.TrimPrefix(e.Message, "VERIF_"), 10, 64)
+			if perr != nil || !strings.HasPrefix(e.Message, "VERIF_") || e.Code != int(400+p%100) {
+				return fmt.Sprintf("err:garbled(code=%d,msg=%s)", e.Code, e.Message)
+			}
+			return "err:" + tok(p)
 		}
 		return "goerr:" + reflect.TypeOf(err).String()
 	}
 	switch x := v.(type) {
 	case *objects.Pong:
-		return "obj:" + strconv.FormatInt(x.MsgID, 10)
+		if !reflect.DeepEqual(x, objValue(x.PingID, true)) {
+			return fmt.Sprintf("obj:garbled(pong %d %d)", x.MsgID, x.PingID)
+		}
+		return "obj:" + tok(x.PingID)
+	case *objects.MsgsDetailedInfo:
+		p := int64(x.Status)
+		if p%2 == 0 || !reflect.DeepEqual(x, objValue(p, false)) {
+			return fmt.Sprintf("obj:garbled(info %d %d %d %d)", x.MsgID, x.AnswerMsgID, x.Bytes, x.Status)
+		}
+		return "obj:" + tok(p)
 	case bool:
 		if x {
 			return "bool:1"
@@ -230,12 +308,32 @@ func showResult(v interface{}, err error) string {
 		if len(x) == 0 {
 			return "vecbare:empty"
 		}
-		return "vecbare:" + strconv.Itoa(int(x[0]))
+		p := int64(x[len(x)-1])
+		if !reflect.DeepEqual(x, bareVec32(p)) {
+			return fmt.Sprintf("vecbare:garbled(len=%d first=%d last=%d)", len(x), x[0], p)
+		}
+		return "vecbare:" + tok(p)
+	case []int64:
+		if len(x) == 0 {
+			return "vecbare:empty"
+		}
+		p := x[len(x)-1]
+		if !reflect.DeepEqual(x, bareVec64(p)) {
+			return fmt.Sprintf("vecbare:garbled(len=%d first=%d last=%d)", len(x), x[0], p)
+		}
+		return "vecbare:" + tok(p)
 	case []*objects.FutureSalt:
 		if len(x) == 0 {
 			return "vecobj:empty"
 		}
-		return "vecobj:" + strconv.Itoa(int(x[0].ValidSince))
+		if x[len(x)-1] == nil {
+			return "vecobj:garbled(nil element)"
+		}
+		p := x[len(x)-1].Salt
+		if !reflect.DeepEqual(x, objVec(p)) {
+			return fmt.Sprintf("vecobj:garbled(len=%d last=%d)", len(x), p)
+		}
+		return "vecobj:" + tok(p)
 	case nil:
 		return "nil"
 	default:
@@ -276,7 +374,7 @@ func (r *run) setSkew(mode string) {
 		r.out.line("N", strconv.Itoa(r.idx), "no lastMsgID field in this tree: clock regime "+mode+" not applied")
 		return
 	}
-	now := utils.GenerateMessageId()
+	now := hnow()
 	var v int64
 	switch mode {
 	case "ahead1m":
@@ -296,30 +394,63 @@ func (r *run) setSkew(mode string) {
 func expectedResult(sp callSpec) string {
 	switch sp.kind {
 	case "ping":
-		return "obj:" + strconv.FormatInt(sp.token, 10)
+		return "obj:" + tok(sp.token)
 	case "bool":
-		return "bool:" + strconv.FormatInt(sp.token&1, 10)
+		return "bool:" + tok(sp.token&1)
+	case "vecbare", "vecobj":
+		if vecLen(sp.token) == 0 {
+			return sp.kind + ":empty"
+		}
+		return sp.kind + ":" + tok(sp.token)
 	default:
-		return sp.kind + ":" + strconv.FormatInt(sp.token, 10)
+		return sp.kind + ":" + tok(sp.token)
 	}
 }
 
-func resultBody(sp callSpec) []byte {
+// reqKind: which request object carries the call (the server never looks at it: answers are
+// addressed by the msg id of the frame). 0 ping, 1 msgs_state_req, 2 msg_resend_req.
+func reqKind(sp callSpec) int {
+	if sp.kind == "ping" {
+		return 0
+	}
+	return int(((sp.token/3)%3 + 3) % 3)
+}
+
+func request(sp callSpec) tl.Object {
+	switch reqKind(sp) {
+	case 1:
+		return &objects.MsgsStateReq{MsgIDs: []int64{sp.token}}
+	case 2:
+		return &objects.MsgResendReq{MsgIDs: []int64{sp.token, sp.token + 1}}
+	}
+	return &objects.PingParams{PingID: sp.token}
+}
+
+// wide: the bare vector of this call has 64-bit elements (hint []int64)
+func wide(sp callSpec) bool { return reqKind(sp) != 0 }
+
+func resultBody(sp callSpec, wide64 bool) []byte {
 	p := sp.token
 	switch sp.kind {
-	case "obj", "ping":
-		return refserver.Object(&objects.Pong{MsgID: p, PingID: ^p})
+	case "obj":
+		return refserver.Object(objValue(p, false))
+	case "ping":
+		return refserver.Object(objValue(p, true))
 	case "bool":
 		return refserver.Bool(p&1 == 1)
 	case "vecbare":
-		v := []int32{int32(p), int32(p + 1), int32(p + 2)}
-		return refserver.VectorInt32(v[:1+int(p%3)])
+		if wide64 {
+			return refserver.VectorInt64(bareVec64(p))
+		}
+		return refserver.VectorInt32(bareVec32(p))
 	case "vecobj":
-		v := []tl.Object{&objects.FutureSalt{ValidSince: int32(p), ValidUntil: int32(p + 1), Salt: p * 7},
-			&objects.FutureSalt{ValidSince: int32(p + 1), ValidUntil: int32(p + 2), Salt: p * 11}}
-		return refserver.VectorObjects(v[:1+int(p%2)])
+		var v []tl.Object
+		for _, x := range objVec(p) {
+			v = append(v, x)
+		}
+		return refserver.VectorObjects(v)
 	case "err":
-		return refserver.RpcError(int32(400+p%100), "VERIF_"+strconv.FormatInt(p, 10))
+		return refserver.RpcError(int32(400+p%100), "VERIF_"+tok(p))
 	}
 	trouble("unknown result kind %q", sp.kind)
 	return nil
@@ -465,9 +596,10 @@ func (r *run) record(label, obs string) {
 // doCall starts the next call of caller t and waits for its first yield point.
 func (r *run) doCall(t int, sp callSpec) {
 	c := r.callers[t]
-	cs := &callState{spec: sp, k: len(c.calls), frame: -1}
+	cs := &callState{spec: sp, t: t, k: len(c.calls), frame: -1}
 	c.calls = append(c.calls, cs)
 	c.active = cs
+	r.relAt[c.name] = hnow()
 	c.cmd <- sp
 	ar := r.await(c.name)
 	items := r.onArrival(c.name, ar)
@@ -477,7 +609,7 @@ func (r *run) doCall(t int, sp callSpec) {
 	}
 	lbl := fmt.Sprintf("call %d %s", t, h)
 	if ar.Point == "idgen" {
-		lbl += " " + r.clk(ar.ID)
+		lbl += " " + r.clk(c.name, ar.ID)
 	}
 	r.record(lbl, strings.Join(items, " "))
 }
@@ -486,18 +618,42 @@ func (r *run) doCall(t int, sp callSpec) {
 // If the harness's own reading of the wall clock (taken after the client's) is not above the highest id
 // seen so far, the client's reading was not either: the model gets the harness's reading and has to arrive
 // at the id by its own bump (last+4). Otherwise the id itself is the witness of what the client read.
-func (r *run) clk(id int64) string {
-	now := utils.GenerateMessageId()
+func (r *run) clk(actor string, id int64) string {
+	now := hnow()
+	rel, okRel := r.relAt[actor] // the harness's clock reading when it let this goroutine go: the client read the clock after it
+	if !okRel {
+		rel = now
+	}
 	w := id
-	if r.maxID != 0 && now <= r.maxID {
+	switch {
+	case r.maxID != 0 && now <= r.maxID:
+		// the wall clock reads no more than the last id: the id must be exactly the last one + 4
 		w = now
 		r.bumps++
 		r.bumpRun++
 		if r.bumpRun > r.bumpMax {
 			r.bumpMax = r.bumpRun
 		}
-	} else {
+		if id != r.maxID+4 {
+			r.clockV = append(r.clockV, [2]string{"msgid-not-last-plus-4", fmt.Sprintf("the clock read no more than the last msg_id, the new id is last%+d instead of last+4", id-r.maxID)})
+		}
+	case r.maxID == 0 && r.preset != 0 && now <= r.preset:
 		r.bumpRun = 0
+		if id != r.preset+4 {
+			r.clockV = append(r.clockV, [2]string{"msgid-not-last-plus-4", fmt.Sprintf("lastMsgID was ahead of the clock, the first id is last%+d instead of last+4", id-r.preset)})
+		}
+	default:
+		// the id has to come from the clock: the client read it between the previous yield and now
+		r.bumpRun = 0
+		if id&3 != 0 {
+			r.clockV = append(r.clockV, [2]string{"msgid-not-multiple-of-4", fmt.Sprintf("msg_id mod 4 = %d", id&3)})
+		}
+		// the client read the wall clock after the harness's reading at the release and before the one just taken
+		if id < rel || id > now {
+			r.clockV = append(r.clockV, [2]string{"msgid-not-from-clock", fmt.Sprintf("msg_id is not (unix seconds << 32 | nanoseconds &^ 3) of a clock reading between the harness's own readings around the send: %d s %d ns from the later one",
+				(id>>32)-(now>>32), int64(uint32(id))-int64(uint32(now)))})
+		}
+		r.lowWords = append(r.lowWords, uint32(id))
 	}
 	if id > r.maxID {
 		r.maxID = id
@@ -507,6 +663,25 @@ func (r *run) clk(id int64) string {
 		return "x" + strconv.FormatInt(d, 10)
 	}
 	return strconv.FormatInt(d/4, 10)
+}
+
+// hnow is the harness's own reading of the wall clock in msg_id format (not the tree's GenerateMessageId)
+func hnow() int64 {
+	t := time.Now().UnixNano()
+	return (t/1000000000)<<32 | (t%1000000000)&^3
+}
+
+// setSeq0 starts the session with the client's seq_no counter at n (even), e.g. just below 2^31: the
+// int32 wrap-around of the counter is then inside the run, and the model (wrap32) has to follow it.
+func (r *run) setSeq0(n int64) {
+	f := reflect.ValueOf(r.cl).Elem().FieldByName("seqNo")
+	if !f.IsValid() || f.Kind() != reflect.Int32 {
+		r.out.line("N", strconv.Itoa(r.idx), "no seqNo field in this tree: seq_no start not applied")
+		return
+	}
+	*(*int32)(unsafe.Pointer(f.UnsafeAddr())) = int32(n)
+	r.seq0 = n
+	r.out.line("P", strconv.Itoa(r.idx), "seq", strconv.FormatInt(n, 10))
 }
 
 // afterUnlock: senders that were found blocked on the send lock get it as soon as the holder returns;
@@ -534,7 +709,7 @@ func (r *run) afterUnlock() {
 		}
 		clk := "0"
 		if ar.Point == "idgen" {
-			clk = r.clk(ar.ID)
+			clk = r.clk(ar.Actor, ar.ID)
 		}
 		items := r.onArrival(ar.Actor, ar)
 		r.slog("auto " + show)
@@ -552,6 +727,7 @@ func (r *run) doProbe(actor string) {
 		show = "rx"
 	}
 	r.nprobes++
+	r.relAt[actor] = hnow()
 	r.sc.Release(actor)
 	ar, ok := r.sc.TryAwait(actor, probeTimeout)
 	if !ok {
@@ -623,10 +799,11 @@ func (r *run) doStep(actor string) {
 		if p.Point == "read" {
 			r.reads++
 		}
+		r.relAt[actor] = hnow()
 		r.sc.Release(actor)
 		ar := r.await(actor)
 		if ar.Point == "idgen" {
-			clk = r.clk(ar.ID)
+			clk = r.clk(actor, ar.ID)
 		}
 		items = r.onArrival(actor, ar)
 	}
@@ -677,12 +854,19 @@ func (r *run) build(b *bodySpec) ([]byte, string) {
 		if b.op == "err" {
 			sp.kind = "err"
 		}
-		body := resultBody(sp)
+		body := resultBody(sp, cs != nil && wide(cs.spec))
 		if b.gz {
 			body = refserver.Gzip(body)
 		}
 		if cs != nil {
 			cs.answers++
+			// what the call has to return is the FIRST answer the client can hand over: a Vector<> sent
+			// to a call that declared none cannot be decoded (warned about, acknowledged, skipped)
+			deliverable := !((sp.kind == "vecbare" || sp.kind == "vecobj") && !cs.spec.hinted)
+			if deliverable && !cs.delivered {
+				cs.delivered = true
+				cs.exp = expectedResult(sp)
+			}
 		}
 		g := "0"
 		if b.gz {
@@ -822,7 +1006,10 @@ func (r *run) finish() {
 	// C09: every call returned exactly the answer addressed to its own request
 	for t, c := range r.callers {
 		for _, cs := range c.calls {
-			exp := expectedResult(cs.spec)
+			exp := cs.exp
+			if exp == "" {
+				exp = expectedResult(cs.spec)
+			}
 			got := cs.got
 			if !cs.done {
 				got = "pending"
@@ -832,16 +1019,31 @@ func (r *run) finish() {
 				r.out.line("V", idx, "C09", "misrouted-or-mistyped:"+cs.spec.kind,
 					fmt.Sprintf("caller %d call %d (declared %s, hinted=%v) expected %s got %s", t, cs.k, cs.spec.kind, cs.spec.hinted, exp, got))
 			}
-			if !cs.done && cs.answers > 0 && r.status == "ok" {
+			if !cs.done && cs.delivered && r.status == "ok" {
 				r.out.line("V", idx, "C09", "answered-call-pending:"+cs.spec.kind,
 					fmt.Sprintf("caller %d call %d was answered by the server but never returned", t, cs.k))
 			}
-			if !cs.done && cs.answers == 0 && r.status == "ok" && r.random {
+			if !cs.done && !cs.delivered && r.status == "ok" && r.random {
 				// the random generator answers every request it has seen: a call that is still
 				// pending never got its request to the server although nothing was left to schedule
 				r.out.line("V", idx, "C09", "call-never-reached-the-server:"+cs.spec.kind,
 					fmt.Sprintf("caller %d call %d neither completed nor reached the server; no enabled step was left", t, cs.k))
 			}
+		}
+	}
+	// C10: every id is derived from the clock (or is the last one + 4 when the clock is behind)
+	for _, v := range r.clockV {
+		r.out.line("V", idx, "C10", v[0], v[1])
+	}
+	if len(r.lowWords) >= 3 {
+		same := true
+		for _, w := range r.lowWords {
+			if w != r.lowWords[0] {
+				same = false
+			}
+		}
+		if same {
+			r.out.line("V", idx, "C10", "msgid-low-bits-constant", fmt.Sprintf("%d ids taken from the clock share the low 32 bits %#x", len(r.lowWords), r.lowWords[0]))
 		}
 	}
 	// C10: wire order
@@ -886,7 +1088,7 @@ func (r *run) finish() {
 				r.out.line("V", idx, "C10", "msgid-order-inversion",
 					fmt.Sprintf("frame %d written after frame %d has msg_id lower by %d", i, i-1, prev.MsgID-f.MsgID))
 			}
-			if f.SeqNo < prev.SeqNo {
+			if f.SeqNo < prev.SeqNo && r.seq0 == 0 { // (a session started near 2^31 wraps by design: the documented int32 limit)
 				r.out.line("V", idx, "C10", "seqno-decreased", fmt.Sprintf("frame %d seq_no %d after %d", i, f.SeqNo, prev.SeqNo))
 			}
 		}
@@ -915,7 +1117,7 @@ func (r *run) finish() {
 	seq, _, rk, hk := r.cl.VerifSnapshot()
 	sort.Ints(rk)
 	r.out.line("F", idx, fmt.Sprintf("seq=%d table=%d hints=%d", seq, len(rk), len(hk)))
-	r.out.line("X", idx, fmt.Sprintf("skew=%s bumps=%d bumpmax=%d probes=%d blocked=%d broken=%v", r.skew, r.bumps, r.bumpMax, r.nprobes, r.nblocked, r.broken))
+	r.out.line("X", idx, fmt.Sprintf("skew=%s bumps=%d bumpmax=%d probes=%d blocked=%d broken=%v seq0=%d", r.skew, r.bumps, r.bumpMax, r.nprobes, r.nblocked, r.broken, r.seq0))
 	r.out.line("E", idx, r.status)
 }
 
